@@ -48,10 +48,10 @@ func init() {
 	// C18 (cache level): admission decisions of the real eviction run, random admission pinned off.
 	Props["C18"].Engines = append(Props["C18"].Engines, &seqEngine{
 		admission: true,
-		profile: Profile{Prop: "C18", Executor: []string{"sync"}, NoExp: true, NoRef: true, BoundOnly: true, Keys: [2]int{6, 14}, MinOps: 40, MaxOps: 300,
+		profile: Profile{Prop: "C18", Executor: []string{"sync"}, NoExp: true, NoRef: true, BoundOnly: true, MidBound: true, Keys: [2]int{6, 40}, MinOps: 40, MaxOps: 400,
 			OpW: map[string]int{"set": 30, "get": 45, "compute": 6, "setifabsent": 6, "computeifabsent": 4, "invalidate": 3, "getentry": 4,
 				"getquiet": 0, "computeifpresent": 2, "invalidateall": 0, "setexpires": 0, "setrefreshable": 0, "load": 3, "bulkget": 0, "refresh": 0, "bulkrefresh": 0,
-				"all": 0, "keys": 0, "values": 0, "hottest": 1, "coldest": 1, "setmax": 0, "getmax": 0, "wsize": 0, "esize": 0, "cleanup": 1, "stats": 0, "advance": 0, "runexec": 0}},
+				"all": 0, "keys": 0, "values": 0, "hottest": 1, "coldest": 1, "setmax": 3, "getmax": 0, "wsize": 0, "esize": 0, "cleanup": 1, "stats": 0, "advance": 0, "runexec": 0}},
 		nontrivial: func(o *SeqOutcome) bool { return o.Probes["admission-decisions-checked"] > 0 },
 	})
 	// C03 (concurrent form): rounds separated by barriers at which the clock moves onto / around the
@@ -90,8 +90,10 @@ func init() {
 	c04exp := &ConcOpts{
 		Profile: Profile{Prop: "C04", ForceExp: true, BoundOnly: true, NoRef: true, Keys: [2]int{3, 12}},
 		OpW:     expOps, Tasks: [2]int{2, 4}, OpsPer: [2]int{4, 22}, Prefill: [2]int{0, 8},
-		Executors:  []string{"default", "queued", "sync"},
-		NonTrivial: func(o *ConcOutcome) bool { return o.Switches > 4 && o.Probes["bounded"] > 0 && o.Probes["atomic-events"] > 0 },
+		Executors: []string{"default", "queued", "sync"},
+		NonTrivial: func(o *ConcOutcome) bool {
+			return o.Switches > 4 && o.Probes["bounded"] > 0 && o.Probes["atomic-events"] > 0
+		},
 	}
 	Props["C04"].Engines = append(Props["C04"].Engines, &concEngine{opts: c04exp})
 	c14ops := map[string]int{}
@@ -106,4 +108,21 @@ func init() {
 		NonTrivial: func(o *ConcOutcome) bool { return o.Switches > 4 && o.Probes["maintenance-configured"] > 0 },
 	}
 	Props["C14"].Engines = append(Props["C14"].Engines, &concEngine{opts: c14exp})
+	// C03 / C02 with an asynchronously moving clock: tasks advance the clock while operations of
+	// other tasks are in flight (stale clock samples, reads that move deadlines, sweeps); per-key
+	// histories against the map with deadline intervals.
+	c03async := &ConcOpts{
+		Profile: Profile{Prop: "C03", ForceExp: true, NoCustomExp: true, NoRef: true, Keys: [2]int{1, 3}},
+		OpW: zeroExcept(map[string]int{"set": 14, "setifabsent": 9, "get": 16, "getentry": 3, "getquiet": 2, "compute": 7, "computeifabsent": 5, "computeifpresent": 5,
+			"invalidate": 5, "setexpires": 2, "cleanup": 3, "advance": 12}),
+		Tasks: [2]int{2, 4}, OpsPer: [2]int{3, 14}, Prefill: [2]int{0, 3},
+		Executors: []string{"default", "sync", "queued"}, AsyncClock: true,
+		NonTrivial: func(o *ConcOutcome) bool { return o.Overlaps > 0 && o.SimTime > 0 },
+	}
+	Props["C03"].Engines = append(Props["C03"].Engines, &concEngine{opts: c03async})
+	// the same engine decides C02's "expiration appears as a removal" half: C02's first engine keeps
+	// expiry out of reach
+	c02async := *c03async
+	c02async.Profile.Prop = "C02"
+	Props["C02"].Engines = append(Props["C02"].Engines, &concEngine{opts: &c02async})
 }
